@@ -2,6 +2,8 @@ package props
 
 import (
 	"fmt"
+	"go/token"
+	"go/types"
 	"strings"
 
 	"golang.org/x/tools/go/ssa"
@@ -60,6 +62,13 @@ func dischargeNE(c *Ctx, p *core.Prog, o *eng.NEObligation) (bool, string) {
 			if n > 0 && okAll {
 				return true, fmt.Sprintf("parameter of an unexported function: all %d call sites pass a value of length >= %d (guard or construction at the call)", n, o.Need)
 			}
+		}
+	}
+	// a field that is nil or non-empty: the access stands behind `x.f != nil`, and everything that is ever stored into that
+	// field (anywhere in the package) has at least one element
+	if o.Need <= 1 {
+		if ok, why := fieldNilOrNonEmpty(p, o); ok {
+			return true, why
 		}
 	}
 	// guard on a pure accessor of the same receiver, e.g. `i+1 != d.size()`: not a bound
@@ -316,4 +325,63 @@ func mapOfDocsKeys(m ssa.Value, depth int) bool {
 		return true
 	}
 	return false
+}
+
+// fieldNilOrNonEmpty: the container is a struct field that holds nil or a non-empty slice - every store into the field in
+// its package has length >= 1 by construction - and the access is dominated by a test that the field is not nil.
+func fieldNilOrNonEmpty(p *core.Prog, o *eng.NEObligation) (bool, string) {
+	ld, ok := core.Unspill(o.Container).(*ssa.UnOp)
+	if !ok || ld.Op != token.MUL {
+		return false, ""
+	}
+	fa, ok := ld.X.(*ssa.FieldAddr)
+	if !ok {
+		return false, ""
+	}
+	ap := core.AP(ld)
+	notNil := false
+	for _, f := range core.FactsAtInstr(o.Instr) {
+		cmp, ok := f.AsCmp()
+		if !ok || cmp.Op != token.NEQ {
+			continue
+		}
+		x, y := cmp.X, cmp.Y
+		if cst, isC := x.(*ssa.Const); isC && cst.IsNil() {
+			x, y = y, x
+		}
+		if cst, isC := y.(*ssa.Const); isC && cst.IsNil() && core.AP(x) == ap {
+			notNil = true
+		}
+	}
+	if !notNil {
+		return false, ""
+	}
+	st := fa.X.Type().Underlying().(*types.Pointer).Elem()
+	n := 0
+	for _, g := range p.SrcFuncs(core.FuncPkgPath(o.Fn)) {
+		for _, b := range g.Blocks {
+			for _, in := range b.Instrs {
+				s, ok := in.(*ssa.Store)
+				if !ok {
+					continue
+				}
+				fa2, ok := s.Addr.(*ssa.FieldAddr)
+				if !ok || fa2.Field != fa.Field {
+					continue
+				}
+				pt, ok := fa2.X.Type().Underlying().(*types.Pointer)
+				if !ok || !types.Identical(pt.Elem(), st) {
+					continue
+				}
+				n++
+				if eng.MinLen(s.Val) < 1 {
+					return false, ""
+				}
+			}
+		}
+	}
+	if n == 0 {
+		return false, ""
+	}
+	return true, fmt.Sprintf("the field is nil or non-empty (all %d stores into it have length >= 1 by construction) and the access stands behind a test that it is not nil", n)
 }
